@@ -21,6 +21,10 @@ class Mismatch(Opaque):
     """definitely not the expected idiom (all parts recognised, but different)."""
 
 
+class AlwaysRaises(Opaque):
+    """value of a call that raises on every path reachable under the current path assumptions."""
+
+
 def is_opaque(v): return isinstance(v, Opaque)
 
 
